@@ -291,7 +291,9 @@ ADDENDA = {
     "C05": " Also: check_zero/check_positive hint Python's truth value over the integers; `~` never meets a plain int; mixed "
            "integer / fixed-point comparisons happen at one scale; selection returns the chosen alternative; no operator writes "
            ".value/.lc of an object that may be one of its operands (flow-sensitive may-alias analysis); no result or "
-           "decomposition is cached on an operand (memoryless rule).",
+           "decomposition is cached on an operand (memoryless rule); every return of the comparison operators is the comparison "
+           "gadget's result (a constant answer for an out-of-range public operand is judged against the width of the value domain); "
+           "a zero divisor raises on every path where errors are not ignored.",
     "C06": " Also: state kept across calls and consulted by a decision is never written under value-derived control (.value, "
            "is_guard(), ignore_errors()).",
     "C07": " Also: emission is memoryless; a raise inside the guarded arm of add_constraint implies the unguarded arm's raise "
@@ -304,7 +306,8 @@ ADDENDA = {
            "a branch not taken are satisfied (shared with C07); the merge multiplexer selects exactly (shared with C02).",
     "C10": " Also: the snarkjs linear-combination algebra (shared with C13, incl. exact cancellation) and no table keyed by "
            "hash(value); prove() is interpreted interprocedurally (helper writers, writer factories, in-memory section buffers, "
-           "to_bytes, concatenated loops); a section list that depends on the data is a violation.",
+           "to_bytes, concatenated loops); a section list that depends on the data is a violation; when the modulus is selectable "
+           "from a table of primes every statement is shown for each of them and every reduction uses the declared modulus.",
     "C11": " Also: the zkinterface linear-combination algebra (shared with C13) and no table keyed by hash(value).",
     "C12": " Also: the whole equation line passes one context-consistency check; a block lists exactly the members it is given, "
            "in order; no table keyed by hash(value); every composite name built around a per-context counter contains the "
@@ -316,19 +319,27 @@ ADDENDA = {
     "C14": " Also: `/` is never applied to a representation (exact division is not a floor); the integer-secret class rejects "
            "or defers fixed-point operands (the strict-comparison defect named in the property was found by this rule and "
            "repaired); sign parity of every rounding division (negating both operands keeps the floor, negating one operand or "
-           "the quotient turns it into a ceiling).",
+           "the quotient turns it into a ceiling); every q*d + r = n rescaling gadget bounds r by exactly the divisor's width "
+           "(shared with C02); comparison operators of the integer-secret class promote floats whenever its arithmetic does.",
     "C15": " Also: the per-position multiplexer if_then_else selects exactly (shared with C02); selector, read and write are "
-           "stated over symbolic sequences (any spelling of the iteration); Array(x) stores a list of its own.",
+           "stated over symbolic sequences (any spelling of the iteration); Array(x) stores a list of its own; helpers whose every "
+           "return is a selection count as selections.",
     "C16": " Also: the evaluated skip predicate of the unpack range check (shared with C03); the checks dominating the bit "
            "construction of to_bits imply 0 <= v < 2^n (interval reasoning).",
+    "C17": " A for_each_in that keeps its own worklist instead of recursing is reported as undecided for coverage and order "
+           "(a loop invariant over the worklist is not established), except that first-in-first-out consumption with conversion at "
+           "removal is breadth-first and therefore a violation.",
     "C18": " Also: under autoprove the exit callback runs backend.prove() exactly once and under no other condition; the recorded "
-           "exit code / exception is written by the interposed hooks only (never reset).",
+           "exit code / exception is written by the interposed hooks only (never reset); the decision table's rows carry what the "
+           "exception hook records for the row's exception (including one raised without arguments) and methods / properties of "
+           "the overrider are evaluated on the row.",
     "C19": " Stage rules are stated on the outcomes of a symbolic execution of the selection code over an abstract registry "
            "row (pairing of name and module on every outcome, no second assignment of backend, decision order, loud failure "
            "of a named backend, report of an unknown name before auto-detection); the environment is matched against a row only "
            "after a complete scan of the table for pre-imported modules; a report counts only if Python's default warning / "
            "logging configuration shows it; star imports honour __all__; a backend skipped without an import attempt must import "
-           "(and be listed after) the backend whose failure justifies the skip.",
+           "(and be listed after) the backend whose failure justifies the skip; whenever PYSNARK_BACKEND matched a row and the "
+           "selection completes, the backend in effect is that row's module.",
     "C20": " Also: sponge construction (block added to the rate part, capacity element carried over, one permutation per "
            "block, state not kept in a class attribute) and pure rejection sampling of the subset-sum coefficients.",
 }
